@@ -1,26 +1,35 @@
-// tokio::io::ReadBuf<'a> for the turmoil-net shim: a fixed-capacity buffer = filled prefix ++ rest (the unfilled capacity,
-// seen after `initialize_unfilled`, which zeroes whatever was uninitialised).  ASSUMED contracts on tokio.
+// tokio::io::ReadBuf<'a> for the turmoil-net shim, over a fully initialised slice (what `ReadBuf::new(&mut [u8])` gives): the
+// borrowed slice plus the length of its filled prefix.  View = filled prefix ++ rest (the unfilled capacity).  The struct is
+// transparent so that Verus ties the caller's slice to the buffer's final content (the inner `&mut` resolves when the ReadBuf
+// dies); the methods are ASSUMED contracts on tokio.  `same_slice`: an operation never re-points the buffer to another slice.
 pub ghost struct RbState { pub filled: Seq<u8>, pub rest: Seq<u8> }
-#[verifier::external_body]
-pub struct ReadBuf<'a> { _p: core::marker::PhantomData<&'a mut u8> }
-impl<'a> View for ReadBuf<'a> { type V = RbState; uninterp spec fn view(&self) -> RbState; }
+pub struct ReadBuf<'a> { pub buf: &'a mut [u8], pub nfilled: usize }
+impl<'a> View for ReadBuf<'a> {
+    type V = RbState;
+    open spec fn view(&self) -> RbState { RbState { filled: self.buf@.take(self.nfilled as int), rest: self.buf@.skip(self.nfilled as int) } }
+}
+#[verifier::prophetic]
+pub open spec fn rb_same_slice(pre: ReadBuf<'_>, post: ReadBuf<'_>) -> bool {
+    final(post.buf)@ == final(pre.buf)@ && post.buf@.len() == pre.buf@.len() && post.nfilled <= post.buf@.len()
+}
 impl<'a> ReadBuf<'a> {
-    // wraps a fully initialised slice: nothing filled yet
-    #[verifier::external_body]
+    pub open spec fn wf(&self) -> bool { self.nfilled <= self.buf@.len() }
+    // wraps a fully initialised slice: nothing filled yet; whatever ends up in the buffer ends up in the caller's slice
     pub fn new(buf: &'a mut [u8]) -> (r: ReadBuf<'a>)
-        ensures r@.filled.len() == 0, r@.rest == old(buf)@,
-    { unimplemented!() }
+        ensures r@.filled.len() == 0, r@.rest == old(buf)@, r.nfilled == 0, r.buf@ == old(buf)@, final(r.buf)@ == final(buf)@,
+    { ReadBuf { buf, nfilled: 0 } }
     // the whole unfilled capacity as a mutable slice; what the caller writes there is the new `rest`
     #[verifier::external_body]
     pub fn initialize_unfilled(&mut self) -> (r: &mut [u8])
         ensures r@ == old(self)@.rest, final(r)@.len() == r@.len(), r@.len() <= usize::MAX,   // (a slice's length fits usize)
-            final(self)@ == (RbState { filled: old(self)@.filled, rest: final(r)@ }),
+            final(self)@ == (RbState { filled: old(self)@.filled, rest: final(r)@ }), rb_same_slice(*old(self), *final(self)),
     { unimplemented!() }
     // moves the first n bytes of the unfilled part into the filled part.  Panics if n exceeds the initialised part.
     #[verifier::external_body]
     pub fn advance(&mut self, n: usize)
         requires n <= old(self)@.rest.len(),
         ensures final(self)@ == (RbState { filled: old(self)@.filled + old(self)@.rest.take(n as int), rest: old(self)@.rest.skip(n as int) }),
+            rb_same_slice(*old(self), *final(self)),
     { unimplemented!() }
     #[verifier::external_body]
     pub fn filled(&self) -> (r: &[u8]) ensures r@ == self@.filled { unimplemented!() }
